@@ -170,7 +170,7 @@ CHECKS.update({
                     [wr("VerifWrFail", {"setting": 5, "recover": rc}, {"K": 2, "W": 16, "KMAX": 8, "HUGE": 1, "HUGESZ": 36000, "BIGEXACT": 0, "FAR": 0}, ["C14:"], ["failure-reported", "huge"], thorough={"K": 3}) for rc in (0, 1)],
             "assumptions": ["destination model: fails at its k-th call (k symbolic) with a distinct error value, then either keeps failing or recovers (accepts data again)"]},
     "C12": {"level": "model_checking",
-            "runs": [wr("VerifWrReset", {"setting": st, "oldfails": of}, {"K1": 2, "K2": 2, "W": 16, "BIGEXACT": 0}, ["C12:"], ["compared"], thorough={"K1": 3})
+            "runs": [wr("VerifWrReset", {"setting": st, "oldfails": of}, {"K1": 2, "K2": 2, "W": 16, "BIGEXACT": 0, "REPLAY": 0}, ["C12:"], ["compared"], thorough={"K1": 3})
                      for st in (5, 6, 0) for of in (0, 1)],
             "assumptions": ["histories h1 (K1 operations) and h2 (K2 operations) are symbolic operation sequences case-split by the solver; content fixed"]},
     "C09": {"level": "model_checking",
@@ -223,7 +223,7 @@ CHECKS["C13"]["runs"] += [gz("VerifZlReset", {"dict": d, "hist": h}, {"N": 3, "M
 CHECKS["C17"] = {
     "level": "other",
     "explanation": "Schedules are not explored. Decided instead, per path of a bounded symbolic run of two instance workloads (verifrt.Parallel): (i) no store to memory reachable from package-level state outside package initialisation and sync.Once bodies, (ii) the objects written through one instance are disjoint from everything read or written through the other. (i)+(ii) is the standard sufficient condition for schedule independence and race freedom of the encoded Go code; every explored path witness is additionally run natively with the two workloads in concurrent goroutines under the Go race detector.",
-    "runs": [gz("VerifInstances", {"pair": p}, {"N": 2}, ["C17:"], ["ran"]) for p in range(9)],
+    "runs": [gz("VerifInstances", {"pair": p}, {"N": 2}, ["C17:"], ["ran"]) for p in range(10)],
     "assumptions": ["footprints of assembly routines, of the runtime and of the standard library's delegate writers beyond what the engine executes are outside the claim",
                     "a sync.Mutex/RWMutex on a path is reported as inconclusive, sync.Once bodies are treated as synchronised"],
 }
@@ -267,3 +267,8 @@ CHECKS["C01"]["runs"] += [wr("VerifKEncBytes", {}, {"IDXLO": lo, "IDXHI": hi, "L
                           for (lo, hi, l0, l1, le, d, tiers) in [(8150, 8180, 15, 9, 7, 6, ["quick", "thorough"]), (8160, 8180, 8, 8, 15, 3, ["quick", "thorough"]), (0, 4, 15, 15, 15, 7, ["quick", "thorough"]),
                                                                  (8120, 8185, 15, 15, 15, 9, ["thorough"]), (8140, 8185, 11, 13, 2, 12, ["thorough"])]]
 CHECKS["C18"]["runs"] += [dict(rd(5, 3, M=300, labels=["C18:"], covers=["ran"], harness="VerifAsmDiff"), tags="verif", native_configs=[["verif", None]], maxdec=4000, maxconc=1500)]
+
+# round-4 additions
+CHECKS["C12"]["runs"] += [wr("VerifWrReset", {"setting": st, "oldfails": 0}, {"K1": 3, "K2": 2, "W": 16, "BIGEXACT": 0, "REPLAY": 1}, ["C12:"], ["compared"]) for st in (5, 6, 3)]
+CHECKS["C11"]["runs"] += [rdp("VerifRdGate", c, n, {"bufio": b}, ["C11:"], []) for (c, n) in [(4, 6), (5, 6)] for b in (0, 2)]
+CHECKS["C05"]["runs"] += [rdp("VerifRdPos", 90, n, {"src": k, "ctor": ct}, ["C05:"], [], extra={"K": kk}) for (n, kk) in [(1, 0), (1, 1), (2, 2), (2, 0)] for (k, ct) in [(0, 1), (2, 0)]]
